@@ -44,7 +44,7 @@ def bip_box(sizes):
 
 
 BIP_QUICK = [(l, r) for l in range(0, 3) for r in range(0, 4)] + [(3, 2)]
-BIP_THOROUGH = [(l, r) for l in range(0, 4) for r in range(0, 4)]
+BIP_THOROUGH = [(l, r) for l in range(0, 4) for r in range(0, 4)] + [(2, 4), (4, 2), (3, 4), (4, 3)]
 
 
 def mk_graph(g):
